@@ -129,6 +129,7 @@ func belongs(o *Obligation, con *Contract, ps *propSpec) bool {
 }
 
 type checkRun struct {
+	skipped  []string // functions under contract left out of an all-functions property (flag nosafety)
 	P        *Program
 	ps       *propSpec
 	tier     string
@@ -193,6 +194,15 @@ func runCheck(id, tier, repo, verif string, writeEvidence bool) int {
 	var names []string
 	for name, con := range P.contracts {
 		if strings.HasPrefix(name, "invoke ") || strings.HasPrefix(name, "functype ") {
+			continue
+		}
+		if con.flag("extern") {
+			continue // assumed contract of a library function: nothing to analyse
+		}
+		if ps.allFns && con.flag("nosafety") && !hasProp(con.Props, id) {
+			// a driver function whose panic-freedom is not claimed (too many callees without contracts);
+			// listed in the evidence
+			cr.skipped = append(cr.skipped, name)
 			continue
 		}
 		if ps.allFns || hasProp(con.Props, id) || clauseMentions(con, id) {
@@ -581,6 +591,9 @@ func (cr *checkRun) writeEvidenceFull(verif string, violations, total, discharge
 		"recursion: callee contracts are assumed at recursive calls (partial correctness)",
 		"go/packages, go/ssa (x/tools v0.29.0), the SSA->SMT translator in /verif/cmd/yqv and the spec library in /verif/spec are trusted",
 	)
+	for _, n := range cr.skipped {
+		assumptions = append(assumptions, "not covered: "+n+" is under contract for other properties but its panic-freedom is not claimed (flag nosafety)")
+	}
 	sort.Strings(assumptions)
 	if samples == nil {
 		samples = []map[string]interface{}{}
